@@ -39,7 +39,7 @@ BUILT = {
             'DESIGN.md 3/C08'),
     'C02': ('model_checking',
             'explicit-state exploration of line histories on the real assembler against a reference two-pass layout model',
-            'Every history over a 28-symbol line alphabet (labels, a zero-valued constant, instructions of three sizes, data, fills, origins, alignments, '
+            'Every history over a 29-symbol line alphabet (labels, a zero-valued constant, a macro of sub-byte steps, instructions of three sizes, data, fills, origins, alignments, '
             'zone switches, muting, an excluded block; forward and backward references) up to depth 3 (thorough 4), and one level '
             'deeper over a core alphabet, under three configurations, is assembled by the real code; the whole image must equal '
             'the reference layout, which fixes every address, every label value (read out by a suffix) and every line size.',
@@ -64,7 +64,7 @@ BUILT = {
             'DESIGN.md 3/C04'),
     'C05': ('model_checking',
             'explicit-state exploration of zone-switching programs in a 5-bit address space against a reference zone model',
-            'Every program over a 14-symbol zone alphabet (zone selection, relative and absolute origins, data, fills ending at / '
+            'Every program over a 15-symbol zone alphabet (zone selection, relative (also negative) and absolute origins, data, fills ending at / '
             'one past a zone end, alignment, an include that switches zone) up to depth 3-4 (thorough 4-5) under six zone layouts, '
             'plus the full grid of well- and ill-formed zone declarations in source and in the ISA definition; the image must equal '
             'the reference layout and rejection must occur iff a byte would leave its zone or GLOBAL.',
@@ -147,7 +147,7 @@ BUILT = {
             'DESIGN.md 3/C10'),
     'C19': ('fault_enumeration',
             'single-fault enumeration at every applicable site of well-formed definitions + version grids',
-            'Every fault of a 16-entry catalogue at every applicable site of two generated definitions that use every section (first '
+            'Every fault of a 19-entry catalogue at every applicable site of two generated definitions that use every section (first '
             'sites of the 8 definitions shipped with the repository), the 512-point min_version grid and the 640-point #require grid; '
             'faulty definitions must be rejected, base definitions (incl. the shipped ones) must load, version gates must follow '
             'version ordering.',
@@ -183,7 +183,7 @@ BUILT = {
     'C15': ('model_checking',
             'schedule exploration of set-iteration order under an import-hook scheduler (deviation-bounded), plus exhaustive CLI environment product',
             'The explorer owns the only internal source of run-to-run variation, set iteration order: every bespokeasm module is loaded '
-            'through an AST rewrite that makes each iteration of a set of hash-randomised elements a choice point; for 8 programs x 2 '
+            'through an AST rewrite that makes each iteration of a set of hash-randomised elements a choice point; for 10 programs x 2 '
             'formats the default schedule (replayed twice) and every schedule with one (thorough two) deviating choice point must give '
             'identical status, image and pretty print. End to end, the same programs x formats run through the real CLI for every '
             'combination of hash seed, working directory, include-directory order, include-directory spelling and environment.',
